@@ -46,6 +46,16 @@ CLAIMED.update({
         DR_NOTE, "DESIGN.md §6 C04"),
 })
 
+CLAIMED["C17"] = (
+    "Lean 4 model of the client's identifier / marker functions over a small file-system state plus a full model of uuid.UUID(s.strip(), version=4); invariants by induction over arbitrary histories; differential correspondence on a scratch directory after every operation",
+    "Proof (all environments, initial states, inputs, finite histories): every returned identifier is canonical v4; a read never changes the file system when a non-empty identifier file exists and that file keeps its bytes "
+    "along any history without regeneration; identifier stability (id_stable_partial) provided the default configuration directory exists — the full statement IdStable is refuted by id_unstable_witness (known finding absent-config-dir); "
+    "marker exclusivity is established by any returning register/unregister and preserved by every operation incl. failing ones; a marker symlink is replaced by a regular file, no outside path or identifier file is touched by marker operations; "
+    "OSError only from directories. Tied: generated histories + canonicalisation strings, state and result compared after every operation.",
+    "Trusted: Lean kernel + propext/Classical.choice/Quot.sound; harness/c17.py (generators, lstat/readlink/bytes snapshot, cert_auth fake); assumed: no directory is created or removed by the modelled code, symlink targets lie outside the five modelled locations, "
+    "ASCII identifier content, no permission errors; uuid4, subscription identity and clock are inputs.",
+    "DESIGN.md §6 C17")
+
 PENDING_REASON = "check not built yet in this round (planned: DESIGN.md §6); no claim is made until its model, theorems and correspondence run exist"
 
 
